@@ -41,6 +41,14 @@ class Report:
         self.backends = {}
         self.bounded = []
         self.known = [k for k in load_known() if k['property'] == prop]
+        # replay files belong to one run: remove those of earlier runs of this property
+        d = os.path.join(ROOT, 'replays', prop)
+        if os.path.isdir(d):
+            for f in os.listdir(d):
+                try:
+                    os.remove(os.path.join(d, f))
+                except OSError:
+                    pass
 
     # -- obligations
     def add(self, oid, status, backend='z3', secs=0.0, detail=None):
